@@ -964,3 +964,34 @@ class AddHook(Contract):
 
 
 CONTRACTS += [AddHook()]
+
+
+class RouteMethods(Contract):
+    """Route.methods: the caller gets a NEW dict with the entries of the method table - never the table itself (whoever edits the
+    result must not de-register handlers)."""
+    props = ('C02', 'C11')
+    file = 'ombott/router/radirouter.py'
+    qualname = 'Route.methods'
+    expected_labels = ('post.a_copy_of_the_table_not_the_table',)
+
+    def pre(self, X):
+        self.table = VObj('MethodTable', {})
+        self.copies = []
+        c = self
+        self.stubs = {'MethodTable.copy': lambda X, a, k: (c.copies.append(VObj('TableCopy', {})), c.copies[-1])[1]}
+        return {'self': VObj('Route', {'_methods': self.table})}
+
+    def construct_hook(self, X, pyclass, args, kwargs):
+        if pyclass is dict and len(args) == 1 and args[0] is self.table and not kwargs:
+            self.copies.append(VObj('TableCopy', {}))
+            return self.copies[-1]
+        return None
+
+    def post(self, X, ret):
+        X.prove('post.a_copy_of_the_table_not_the_table', z3.BoolVal(len(self.copies) == 1 and ret is self.copies[0]))
+
+    def post_raise(self, X, exc):
+        X.prove('raises.nothing', z3.BoolVal(False))
+
+
+CONTRACTS += [RouteMethods()]
